@@ -12,7 +12,11 @@ use std::collections::BTreeSet;
 const TRIGGERS: [&str; 16] = [
     "unit", "u8", "u16", "u32", "U53", "option", "vec", "hashmap", "datetime", "generic-param", "mapped-bytes", "mapped-DateTime", "mapped-Url", "i32", "string", "user",
 ];
-const POSITIONS: [&str; 7] = ["struct-field", "newtype-struct", "variant-payload", "variant-field", "alias", "const", "generic-arg"];
+const POSITIONS: [&str; 8] = [
+    "struct-field", "newtype-struct", "variant-payload", "variant-field", "alias", "const", "generic-arg",
+    // a struct all of whose members are skipped: nothing of the members is needed, whatever the item itself needs still is
+    "struct-with-only-skipped-fields",
+];
 const NEST: [&str; 7] = ["none", "vec", "option", "map-value", "array", "slice", "holder"];
 
 fn trigger_ty(t: &str) -> Ty {
@@ -137,6 +141,19 @@ pub fn program(c: &Case) -> File {
     };
     match c.position {
         "struct-field" => push(Item::strukt("Outer", mk_fields(&tys)), &mut items),
+        "struct-with-only-skipped-fields" => {
+            let mut fs = mk_fields(&tys);
+            for (i, f) in fs.iter_mut().enumerate() {
+                f.skip = if i % 2 == 0 { Skip::Serde } else { Skip::Typeshare };
+            }
+            push(Item::strukt("Outer", fs), &mut items);
+            // the (possibly generic) item is also referred to
+            if generic {
+                items.push(Item::strukt("UsesOuter", vec![Field::new("o", Ty::Generic("Outer".into(), vec![Ty::Prim("u32")]))]));
+            } else {
+                items.push(Item::strukt("UsesOuter", vec![Field::new("o", Ty::user("Outer"))]));
+            }
+        }
         "newtype-struct" => {
             for (i, t) in tys.iter().enumerate() {
                 push(Item::new(&format!("Outer{i}"), IKind::Newtype(t.clone())), &mut items);
